@@ -6,7 +6,7 @@ import impl
 from core import BaseProp, Verdict
 from proto import T
 
-RULE = ('histories of add/get/exists/is_prefix/items on a Trie (names of 0-4 words from a pool with shared prefixes/suffixes, '
+RULE = ('histories of add/get/exists/is_prefix/items on a Trie (names of 0-4 words from a pool with shared prefixes/suffixes and words with sharp s, a ligature, a final sigma, '
         'parentheses, case and blank variants, empty/blank/non-text names, re-insertion), make_automaton, add after it, then '
         'iter over 1-3 texts with items() again after scans; compared: every answer with the model, the fail links with the BFS recurrence of the model, and '
         '(Spec, in Lean) the set of reported (start, end, value) with the brute-force occurrences; non-trivial = at least two '
@@ -14,7 +14,8 @@ RULE = ('histories of add/get/exists/is_prefix/items on a Trie (names of 0-4 wor
 ASSUMPTIONS = ['look-ups are compared before finalisation only (observation O1 in DESIGN.md)',
                'iter is compared in the mode Licensing uses: include_space=False']
 
-POOL = ['a', 'b', 'c', 'gpl', '2.0', '(', ')', 'or', 'x']
+# the last three: words that str.lower() leaves alone and other caseless normalisations (casefold, NFKC) do not
+POOL = ['a', 'b', 'c', 'gpl', '2.0', '(', ')', 'or', 'x', 'fu\u00df', '\ufb01le', '\u03bf\u03c2']
 
 
 def gen_name(rng, pool):
